@@ -39,8 +39,8 @@ class LinguaMakoExtractor(Extractor, MessageExtractor):
         # newline extract_nodes() prepends, still count
         skipped = raw[: len(raw) - len(raw.lstrip())].count("\n")
         if source.endswith(":"):
-            if source in ("try:", "else:") or source.startswith("except"):
-                source = ""  # Ignore try/except and else
+            if source in ("try:", "else:"):
+                source = ""  # Ignore try and else
             elif source.startswith("elif"):
                 source = source[2:]  # Replace "elif" with "if"
             source += "pass"
